@@ -33,9 +33,15 @@ Randrange(start, stop, log) ==
           THEN SamplerBad("returned although the last draw was out of range")
      ELSE SamplerOK(NAdd(start, cand(n)))
 
-(* ed25519_basic.random_scalar: one request of 64 bytes, big-endian, mod L   *)
+(* ed25519_basic.random_scalar: 64 fresh bytes (512 bits), big-endian, mod L.   *)
+(* The code asks for them in one request; the property only demands 512 fresh   *)
+(* bits, so any split into requests is allowed as long as exactly 64 bytes are  *)
+(* consumed, in order.                                                          *)
+RECURSIVE ConcatGot(_)
+ConcatGot(log) == IF log = <<>> THEN <<>> ELSE log[1].got \o ConcatGot(Tail(log))
 EdRandomScalar(L, log) ==
-  IF Len(log) # 1 THEN SamplerBad("Ed25519 draws exactly once")
-  ELSE IF log[1].req # 64 \/ Len(log[1].got) # 64 THEN SamplerBad("Ed25519 draws 64 bytes")
-  ELSE SamplerOK(NMod(NFromBytes(log[1].got), L))
+  IF Len(log) = 0 THEN SamplerBad("Ed25519 draws 64 bytes")
+  ELSE IF \E i \in 1..Len(log) : Len(log[i].got) # log[i].req THEN SamplerBad("entropy function returned a wrong number of bytes")
+  ELSE IF Len(ConcatGot(log)) # 64 THEN SamplerBad("Ed25519 draws 64 bytes")
+  ELSE SamplerOK(NMod(NFromBytes(ConcatGot(log)), L))
 =============================================================================
